@@ -155,9 +155,12 @@ pub fn token_of(connect_idx: usize) -> u64 {
 
 pub fn run(script: &SockScript) -> SockLog {
     librqbit_utp::verif::gauges_reset();
+    crate::duo::sim::spin_reset();
+    let describe = || serde_json::json!({"engine": "sock", "kind": "watchdog", "script": script});
+    let _guard = crate::common::RunGuard::new(&describe);
     let rt = build_runtime(script.rng_seed);
     let res = std::panic::catch_unwind(std::panic::AssertUnwindSafe(|| rt.block_on(run_async(script))));
-    let log = match res {
+    let mut log = match res {
         Ok(l) => l,
         Err(p) => {
             let msg = p.downcast_ref::<String>().cloned().or_else(|| p.downcast_ref::<&str>().map(|s| s.to_string())).unwrap_or_else(|| "panic".into());
@@ -165,6 +168,9 @@ pub fn run(script: &SockScript) -> SockLog {
         }
     };
     drop(rt);
+    if crate::duo::sim::spin_tripped() && log.panicked.is_none() {
+        log.panicked = Some(format!("livelock: {} polls at one virtual instant", crate::duo::sim::SPIN_LIMIT));
+    }
     log
 }
 
